@@ -54,3 +54,5 @@ def run_deductive(rep):
     verify.verify_many(rep, items)
     from ..static import provenance
     provenance.report(rep, only=("postprocessing/",))      # rows of scores / labels / groups are paired by position
+    from ..static import frames
+    frames.report(rep, classes=["ThresholdOptimizer"], conditions=("F1", "F3", "F4", "F5", "F6"))      # every fit rebuilds its state (F3: no attribute of an earlier fit is read before it is written, incl. hasattr guards), predict keeps no private state
